@@ -662,6 +662,8 @@ def execute(trace):
                 return ctxs[wi]
 
             import sys as _sys
+            from . import sched as _sched
+            S = _sched.begin()
             src_prefix = os.path.join(os.path.realpath(core.xfab_src()), "xfab") + os.sep
 
             def call(c, op, cc_=None, cell_=None, nested=None):
@@ -678,9 +680,10 @@ def execute(trace):
                                 if left[0] == 0:
                                     left[0] = -1
                                     _sys.settrace(None)
-                                    # the second party's call runs to completion in the middle of ours
+                                    # the second party (a real second thread, this one is parked meanwhile) makes a call
+                                    # of its own in the middle of ours
                                     keep = (seam.sched, seam.ndraw)
-                                    nested.append((c2, pre["op"]) + call(c2, pre["op"]))
+                                    S.on_other(lambda: nested.append((c2, pre["op"]) + call(c2, pre["op"])))
                                     seam.sched, seam.ndraw = keep
                                     return None
                                 if left[0] > 0:
@@ -716,6 +719,7 @@ def execute(trace):
                 finally:
                     if tracer is not None:
                         _sys.settrace(None)
+                        S.finish_other()
                         if left[0] >= 0:
                             count("probe.preempt_point_not_reached")
                     nd = seam.ndraw
@@ -884,6 +888,14 @@ def execute(trace):
                     pair_check(np, c, c.all_sets[0][1], trace["ops"][c.all_sets[0][0]], call, sg, viols, known, count,
                                kf_open, events)
     finally:
+        try:
+            from . import sched as _sched2
+            if _sched2.CURRENT is not None:
+                for k_, v_ in _sched2.CURRENT.stats.items():
+                    count("probe." + k_, v_)
+            _sched2.end()
+        except Exception:
+            pass
         seam.remove()
         np.random.set_state(saved_state)
         logging.disable(logging.NOTSET)
